@@ -137,10 +137,14 @@ def run(repo, tier):
                                                        ge(Lin.atom("X.shape[-1]"), Lin.atom("end"))])
 
     # spacing values 0 <= l < L are accepted by multisubstitute's own validation loop
+    _ms = repo.func(ERSATZ + ".multisubstitute")
+    _spl = [n for n in _ms.node.body if isinstance(n, ast.For) and isinstance(n.iter, ast.Name) and n.iter.id == "spacing" and isinstance(n.target, ast.Name)]
+    _lv = _spl[0].target.id if _spl else "l"
+
     def _sp_valid(ai, st):
-        l = Lin.atom(st.sver.get("l", "l"))
+        l = Lin.atom(st.sver.get(_lv, _lv))
         return [ge(l, 0), ge(Lin.atom("X.shape[-1]"), l + 1)]
-    out += accept_rule(repo, "multisubstitute", _sp_valid, extra_names=frozenset({"l"}), require_names={"l"},
+    out += accept_rule(repo, "multisubstitute", _sp_valid, extra_names=frozenset({_lv}), require_names={_lv},
                        what="every spacing 0 <= l < L is accepted by the validation loop")
     out += randomize_layout(repo)
 
@@ -278,12 +282,28 @@ def randomize_layout(repo):
     if not loops or not rets:
         return [unrecognised("R-AXES", fi, role, "loop / return not found")]
     l = loops[-1]
-    if unparse(l.iter) != "range(n)":
-        return [violation("R-AXES", fi, role, "loop runs over `%s`, not range(n)" % unparse(l.iter), l)]
-    apps = [s for s in l.body if isinstance(s, ast.Expr) and unparse(s.value).startswith("X_rands.append(")]
+    from ..rules import inline_locals
+    retv = inline_locals(fi, rets[-1].value)
+    base0, _ = chain(retv)
+    lst = base0.args[0].id if isinstance(base0, ast.Call) and dotted(base0.func) in ("torch.stack", "torch.cat", "torch.concatenate") \
+        and base0.args and isinstance(base0.args[0], ast.Name) else None
+    if lst is None:
+        return [unrecognised("R-AXES", fi, role, "returned value `%s` is not a stack of a list" % unparse(retv)[:60], rets[-1])]
+    it = l.iter
+    cnt = None
+    if isinstance(it, ast.Call) and dotted(it.func) == "range" and not it.keywords:
+        if len(it.args) == 1:
+            cnt = unparse(it.args[0])
+        elif len(it.args) == 2 and const_value(it.args[0]) == 0:
+            cnt = unparse(it.args[1])
+    if cnt is None:
+        return [unrecognised("R-AXES", fi, role, "loop header `%s` not recognised" % unparse(it), l)]
+    if cnt != "n":
+        return [violation("R-AXES", fi, role, "loop runs `%s` times, not n" % cnt, l)]
+    apps = [s for s in l.body if isinstance(s, ast.Expr) and unparse(s.value).startswith("%s.append(" % lst)]
     if len(apps) != 1:
-        return [violation("R-AXES", fi, role, "each iteration must append exactly one randomisation", l)]
-    base, ops = chain(rets[-1].value)
+        return [violation("R-AXES", fi, role, "each iteration must append exactly one randomisation to `%s`" % lst, l)]
+    base, ops = chain(retv)
     lab = ["n", "N", "A", "L"]
     if isinstance(base, ast.Call) and const_value(kwarg(base, "dim", 1)) == 1:
         lab = ["N", "n", "A", "L"]
@@ -361,7 +381,15 @@ def randomize_rule(repo, sub_ok):
 
 def multisubstitute_rule(repo, sub_ok):
     fi = repo.func(ERSATZ + ".multisubstitute")
-    ai = AbsInt(fi, int_params={"start"}, int_arrays={"spacing", "motif_lengths"})
+    lens_var = None
+    for s in fi.node.body:
+        if isinstance(s, ast.Assign) and isinstance(s.value, ast.ListComp) and len(s.value.generators) == 1 \
+                and isinstance(s.value.generators[0].iter, ast.Name) and s.value.generators[0].iter.id == "motifs" \
+                and isinstance(s.targets[0], ast.Name):
+            g = s.value.generators[0]
+            if isinstance(g.target, ast.Name) and not g.ifs and _is_length_of(s.value.elt, g.target.id):
+                lens_var = s.targets[0].id
+    ai = AbsInt(fi, int_params={"start"}, int_arrays={"spacing", lens_var or "motif_lengths"})
     out = []
     role_call = "every motif is placed by substitute at the running start (callee rejects out-of-range)"
     calls = calls_to(fi, "substitute")
@@ -394,15 +422,6 @@ def multisubstitute_rule(repo, sub_ok):
         out.append(violation("R-LEN", fi, role_adv, "start is updated %d times in the loop body" % len(upd), loop))
         return out
     u = upd[0]
-    # which variable holds the motif lengths?  a comprehension over `motifs` of len()/shape[-1]
-    lens_var = None
-    for s in fi.node.body:
-        if isinstance(s, ast.Assign) and isinstance(s.value, ast.ListComp) and len(s.value.generators) == 1 \
-                and isinstance(s.value.generators[0].iter, ast.Name) and s.value.generators[0].iter.id == "motifs" \
-                and isinstance(s.targets[0], ast.Name):
-            g = s.value.generators[0]
-            if isinstance(g.target, ast.Name) and not g.ifs and _is_length_of(s.value.elt, g.target.id):
-                lens_var = s.targets[0].id
     if lens_var is None:
         out.append(unrecognised("R-LEN", fi, role_adv, "per-motif length table not found"))
         return out
@@ -433,8 +452,10 @@ def multisubstitute_rule(repo, sub_ok):
     if unparse(marg) != "motifs[%s]" % iv:
         out.append(violation("R-LEN", fi, role_adv, "loop places `%s`, expected motifs[%s]" % (unparse(marg), iv), c))
         return out
-    if not (isinstance(loop.iter, ast.Call) and dotted(loop.iter.func) == "range" and len(loop.iter.args) == 1
-            and unparse(loop.iter.args[0]) in ("len(spacing)", "len(motifs) - 1")):
+    rargs = loop.iter.args if isinstance(loop.iter, ast.Call) and dotted(loop.iter.func) == "range" and not loop.iter.keywords else []
+    if len(rargs) == 2 and const_value(rargs[0]) == 0:
+        rargs = rargs[1:]
+    if not (len(rargs) == 1 and unparse(rargs[0]) in ("len(spacing)", "len(motifs) - 1")):
         out.append(unrecognised("R-LEN", fi, role_adv, "loop range `%s` not recognised" % unparse(loop.iter), loop))
         return out
     # final motif
